@@ -94,7 +94,7 @@ func shortTextHint(text []rune, maxWidth, fontSize pr.Float) []rune {
 		cut = int(maxWidth / fontSize * 2.5)
 	}
 
-	if cut > len(text) {
+	if cut > len(text) || cut < 0 { // (a huge maxWidth overflows the conversion to int)
 		cut = len(text)
 	}
 
